@@ -26,7 +26,7 @@ def keys {κ α} (m : Assoc κ α) : List κ := m.map (·.1)
 
 /-! ## the scenario AST -/
 
-inductive Kind | computer | server | printer | switch | router | firewall
+inductive Kind | computer | server | printer | switch | router | firewall | wirelessRouter
 deriving DecidableEq, Repr
 
 /-- `NodeOperatingState` (the four values docs/source/configuration/simulation/nodes/common/common_node_attributes.rst lists). -/
@@ -50,11 +50,19 @@ structure RouteCfg where
   metric : Option Nat
 deriving DecidableEq, Repr
 
-/-- one entry of `services:` / `applications:`; `opts` is the canonical token of its `options` mapping. -/
+/-- `wireless_access_point:` of a wireless router -/
+structure WapCfg where
+  ip : Ip
+  mask : Ip
+  frequency : String
+deriving DecidableEq, Repr
+
+/-- one entry of `services:` / `applications:` -/
 structure SwCfg where
   isApp : Bool
   type : String
-  opts : String
+  /-- the entry's `options` mapping (without `type` and `starting_health_state`): option name → value token -/
+  opts : Assoc String String
   /-- `options.starting_health_state` (`none` = key absent: the schema default GOOD) -/
   health : Option Health := none
   /-- does the class's `__init__` call `self.start()` / `self.run()`? (read off the class by the rig; the theorems hold for
@@ -108,6 +116,10 @@ structure NodeCfg where
   applications : List SwCfg := []
   users : List UserCfg := []
   folders : List FolderCfg := []
+  /-- `router_interface:` of a wireless router (address and mask, both mandatory) -/
+  routerIf : Option (Ip × Ip) := none
+  /-- `wireless_access_point:` of a wireless router -/
+  wap : Option WapCfg := none
 deriving Repr
 
 structure LinkCfg where
@@ -140,10 +152,49 @@ structure AgentCfg where
   settings : String := ""
 deriving DecidableEq, Repr
 
+/-- the `defaults:` section: every key `PrimaiteGame.from_config` looks for -/
+structure DefaultsCfg where
+  nodeStartUp : Option Nat := none
+  nodeShutDown : Option Nat := none
+  nodeScan : Option Nat := none
+  folderScan : Option Nat := none
+  folderRestore : Option Nat := none
+  svcFix : Option Nat := none
+  svcRestart : Option Nat := none
+  /-- `service_install_duration`: assigned to an attribute no service has; nothing reads it -/
+  svcInstall : Option Nat := none
+deriving DecidableEq, Repr
+
+/-- the `game:` section (`PrimaiteGameOptions`); ports / protocols as the numbers / names their tokens resolve to -/
+structure GameCfg where
+  maxLen : Option Nat := none
+  seed : Option String := none
+  ports : List String := []
+  protocols : List String := []
+  thresholds : String := "{}"
+deriving DecidableEq, Repr
+
+/-- `office-lan` entry of `node_sets:` -/
+structure OfficeCfg where
+  lanName : String
+  subnetBase : Nat
+  ipStart : Nat
+  numPcs : Nat
+  /-- `include_router` (`none` = key absent: default True) -/
+  includeRouter : Option Bool := none
+  /-- `bandwidth` (`none` = key absent: default 100) -/
+  bandwidth : Option Nat := none
+deriving DecidableEq, Repr
+
 structure Scenario where
   nodes : List NodeCfg
   links : List LinkCfg
   agents : List AgentCfg
+  game : GameCfg := {}
+  /-- `simulation.network.airspace.frequency_max_capacity_mbps`: frequency name → capacity token (bits per second) -/
+  airspace : Assoc String String := []
+  defaults : DefaultsCfg := {}
+  nodeSets : List OfficeCfg := []
 deriving Repr
 
 /-! ## the inventory -/
@@ -156,6 +207,8 @@ structure Nic where
   wired : Bool := false
   /-- `enabled` -/
   enabled : Bool := false
+  /-- a wireless access point: the frequency it operates on (`none` = a wired interface) -/
+  frequency : Option String := none
 deriving DecidableEq, Repr
 
 structure RouteInv where
@@ -170,12 +223,18 @@ instances of that name the node holds. -/
 structure SoftInv where
   name : String
   isApp : Bool
-  opts : String
+  /-- for every option the file declares: the value read off the LIVE object (the attribute the constructor assigned it to,
+  or the config field when the software reads it from its config at the time of use); `none` = the live attribute is unset -/
+  opts : Assoc String (Option String)
   live : Nat
   /-- `operating_state` is RUNNING (otherwise STOPPED for a service, CLOSED for an application) -/
   running : Bool
   /-- `health_state_actual` -/
   health : Health
+  /-- durations the `defaults:` section imposes on a configured service: `config.fixing_duration` (only when the entry gives
+  none of its own) and `restart_duration` -/
+  imposedFix : Option Nat := none
+  imposedRestart : Option Nat := none
 deriving DecidableEq, Repr
 
 structure UserInv where
@@ -190,6 +249,11 @@ structure NodeInv where
   power : Power
   startUp : Nat
   shutDown : Nat
+  /-- `config.node_scan_duration` -/
+  scan : Nat
+  /-- scan / restore duration the `defaults:` section imposes on the node's folders (`none` = the library's own) -/
+  folderScan : Option Nat
+  folderRestore : Option Nat
   dns : Option Ip
   gateway : Option Ip
   nics : List Nic
@@ -219,10 +283,21 @@ structure AgentInv where
   settings : String
 deriving DecidableEq, Repr
 
+structure GameInv where
+  maxLen : Nat
+  seed : Option String
+  ports : List String
+  protocols : List String
+  thresholds : String
+deriving DecidableEq, Repr
+
 structure Inventory where
   nodes : List NodeInv
   links : List LinkInv
   agents : List AgentInv
+  game : GameInv
+  /-- capacity (bits per second, token) of every registered airspace frequency, in registry order -/
+  airspace : List (String × String)
 deriving DecidableEq, Repr
 
 inductive Err
@@ -233,6 +308,10 @@ inductive Err
   | hostNoAddress        -- HostNode.ConfigSchema: ip_address is required
   | noSuchNode           -- link names a hostname that is not in the network (AttributeError on None)
   | sameNode             -- outside the model: link between two interfaces of one node (the real loader logs and skips)
+  | noSuchFrequency      -- KeyError: an airspace key / access-point frequency that is not a registered frequency
+  | wirelessEndpoint     -- a link that ends at a wireless access point (AttributeError: it has no connect_link)
+  | wirelessIncomplete   -- KeyError: router_interface / wireless_access_point without address, mask or frequency
+  | nodeSet              -- an `office-lan` entry the schema or the adder refuses (ValueError)
 deriving DecidableEq, Repr
 
 /-! ## constants of the loaders (tied to the source by Gen/Config.lean) -/
@@ -246,6 +325,11 @@ def defaultDuration : Nat := 3
 def defaultRouterPorts : Nat := 5
 def defaultSwitchPorts : Nat := 8
 def arpPort : Nat := 219
+def defaultScan : Nat := 10                 -- Node.ConfigSchema.node_scan_duration
+def defaultEpisodeLength : Nat := 256       -- PrimaiteGameOptions.max_episode_length
+/-- `AirSpaceFrequency._registry`: name → data_rate_bps -/
+def frequencies : List (String × String) := [("WIFI_2_4", "100000000"), ("WIFI_5", "500000000")]
+def defaultFrequency : String := "WIFI_2_4"
 
 def ruleArp : Rule :=
   { action := .permit, proto := none, srcIp := none, srcWc := none, dstIp := none, dstWc := none,
@@ -264,421 +348,12 @@ def routerSystem : List (String × Bool) :=
 def systemSoftware : Kind → List (String × Bool)
   | .server | .printer => hostSystem                          -- Printer(HostNode) adds nothing to HostNode.SYSTEM_SOFTWARE
   | .computer => hostSystem ++ [("ftp-client", false)]     -- Computer.SYSTEM_SOFTWARE = {**HostNode.SYSTEM_SOFTWARE, "ftp-client": …}
-  | .router | .firewall => routerSystem
+  | .router | .firewall | .wirelessRouter => routerSystem
   | .switch => []
 
 def fwAclNames : List (String × Action × Bool) :=   -- name, implicit action, mandatory when `acl:` is present
   [("internal_inbound_acl", .deny, true), ("internal_outbound_acl", .deny, true), ("dmz_inbound_acl", .deny, true),
    ("dmz_outbound_acl", .deny, true), ("external_inbound_acl", .permit, false), ("external_outbound_acl", .permit, false)]
-
-/-! ## the loader, statement by statement -/
-
-/-- a software instance held by the node (`node.services` / `node.applications`), in install order -/
-structure Soft where
-  name : String
-  isApp : Bool
-  opts : String
-  /-- `operating_state` is RUNNING (else STOPPED / CLOSED) -/
-  running : Bool := false
-  /-- `health_state_actual` -/
-  health : Health := .good
-deriving DecidableEq, Repr
-
-/-- one call of `software_manager.install(cls, config)` as the loader makes it -/
-structure SoftReq where
-  name : String
-  isApp : Bool
-  opts : String
-  /-- `config.starting_health_state` -/
-  health0 : Health := .good
-  /-- the class's `__init__` ends with `self.start()` / `self.run()` -/
-  initStarts : Bool := false
-  /-- the request comes from a `services:` / `applications:` entry: the loader calls `.start()` / `.run()` on it afterwards -/
-  configured : Bool := false
-deriving DecidableEq, Repr
-
-/-- `Service.start` / `Application.run`: refused unless the node is ON (`Software._can_perform_action`); from STOPPED / CLOSED the
-software becomes RUNNING and a health of UNUSED becomes GOOD. -/
-def startSw (p : Power) (s : Soft) : Soft :=
-  if p = .on ∧ s.running = false then
-    { s with running := true, health := if s.health = .unused then .good else s.health }
-  else s
-
-/-- the life of one instance from its constructor to the loader's own `.start()` / `.run()`:
-`Software.__init__` (`health_state_actual = config.starting_health_state`), the class's `__init__` (some end with
-`self.start()` / `self.run()`), `SoftwareManager.install` (a service is started, an application's state is set to CLOSED),
-then for configured entries `new_service.start()` / `new_application.run()`. -/
-def newInstance (p : Power) (r : SoftReq) : Soft :=
-  let s0 : Soft := { name := r.name, isApp := r.isApp, opts := r.opts, running := false, health := r.health0 }
-  let s1 := if r.initStarts then startSw p s0 else s0
-  let s2 := if r.isApp then { s1 with running := false } else startSw p s1
-  if r.configured then startSw p s2 else s2
-
-/-- `software_manager.software[name]`: the most recently registered live instance of that name. -/
-def registered (insts : List Soft) (name : String) : Option Soft :=
-  insts.reverse.find? (·.name = name)
-
-/-- `SoftwareManager.install` of one instance (code after `fix: SoftwareManager.install created a second live instance …`):
-`if software.name in self.software: self.uninstall(software.name)` removes the installed namesake from `node.services` /
-`node.applications`, its request route, the port table and the class map; then the new instance is appended
-(`node.services[software.uuid] = software`, `self.software[software.name] = software`). The bare-reinstall refusal
-(`software_class in _software_class_to_name_map and software_config is None`) cannot fire in the loader: system software is
-installed once per class, `from_config` always passes a configuration mapping, and `DatabaseService.install` asks for the
-FTP client only when none is registered (`installServices`). -/
-def installOne (insts : List Soft) (s : Soft) : List Soft :=
-  insts.filter (fun x => !decide (x.name = s.name)) ++ [s]
-
-/-- the live instances after a sequence of `install` calls on a fresh node -/
-def installedAfter (reqs : List Soft) : List Soft := reqs.foldl installOne []
-
-/-- SPECIFICATION side: of several requests for one software name the last one counts (it carries the options the scenario
-file configures for software the node type already brings along); listed in the order of those last requests. -/
-def lastRequests : List Soft → List Soft
-  | [] => []
-  | s :: rest => if rest.any (fun x => decide (x.name = s.name)) then lastRequests rest else s :: lastRequests rest
-
-/-- the same selection on the requests themselves (used by `declaredSoftware`, which never looks at an instance) -/
-def lastReqs : List SoftReq → List SoftReq
-  | [] => []
-  | s :: rest => if rest.any (fun x => decide (x.name = s.name)) then lastReqs rest else s :: lastReqs rest
-
-def liveCount (insts : List Soft) (name : String) : Nat := (insts.filter (·.name = name)).length
-
-/-- the software inventory as the walker sees it: for every live instance, the registry entry of its name and the
-number of live instances of that name. -/
-def softInventory (insts : List Soft) : List SoftInv :=
-  insts.map fun s =>
-    match registered insts s.name with
-    | some r => { name := r.name, isApp := r.isApp, opts := r.opts, live := liveCount insts s.name,
-                  running := r.running, health := r.health }
-    | none => { name := s.name, isApp := s.isApp, opts := s.opts, live := 0, running := s.running, health := s.health }   -- unreachable: s itself is there
-
-/-- the `services:` loop: `software_manager.install(cls, options)`; `DatabaseService.install()` additionally installs an
-`FTPClient` (whose `__init__` starts it) when `software.get("ftp-client")` is empty at that moment. `seen` = names registered so far. -/
-def installServices (seen : List String) : List SwCfg → List SoftReq
-  | [] => []
-  | c :: rest =>
-    let s : SoftReq := { name := c.type, isApp := false, opts := c.opts, health0 := c.health.getD .good,
-                         initStarts := c.initStarts, configured := true }
-    if c.type = "database-service" ∧ "ftp-client" ∉ seen then
-      s :: { name := "ftp-client", isApp := false, opts := "", initStarts := true } :: installServices ("ftp-client" :: c.type :: seen) rest
-    else s :: installServices (c.type :: seen) rest
-
-/-- every `install()` of a node in call order: `_install_system_software`, the `services:` loop, the `applications:` loop. -/
-def installRequests (k : Kind) (n : NodeCfg) : List SoftReq :=
-  (systemSoftware k).map (fun (nm, app) => { name := nm, isApp := app, opts := "" })
-    ++ installServices ((systemSoftware k).map (·.1)) n.services
-    ++ n.applications.map (fun c => { name := c.type, isApp := true, opts := c.opts, health0 := c.health.getD .good,
-                                      initStarts := c.initStarts, configured := true })
-
-/-- the instances those calls create, each after its own constructor / install / loader start, on a node whose operating state
-is `p` throughout loading -/
-def installAll (p : Power) (k : Kind) (n : NodeCfg) : List Soft := (installRequests k n).map (newInstance p)
-
-/-- `if new_node.operating_state == ON: new_node.power_on()` with `start_up_duration` temporarily 0: `_start_up_actions` starts
-every service and runs every application (a node in any other state is left alone). -/
-def powerOnSoftware (p : Power) (insts : List Soft) : List Soft :=
-  if p = .on then insts.map (startSw p) else insts
-
-/-- `UserManager.add_user`: refused when the name exists. Called from `Node.__init__` and again from `from_config`. -/
-def addUser (us : List UserInv) (u : UserCfg) : List UserInv :=
-  if us.any (·.name = u.name) then us else us ++ [{ name := u.name, password := u.password, admin := u.admin.getD false }]
-
-def adminUser : UserInv := { name := "admin", password := "admin", admin := true }
-
-def buildUsers (n : NodeCfg) : List UserInv :=
-  n.users.foldl addUser (n.users.foldl addUser [adminUser])
-
-/-- `FileSystem.create_folder` / `create_file` as called from `HostNode.__init__`: an existing name is not created again. -/
-def addFile (fs : List FileCfg) (f : FileCfg) : List FileCfg :=
-  if fs.any (·.name = f.name) then fs else fs ++ [f]
-
-def addFolder (acc : List FolderCfg) (fd : FolderCfg) : List FolderCfg :=
-  match acc.find? (·.name = fd.name) with
-  | some _ => acc.map fun g => if g.name = fd.name then { g with files := fd.files.foldl addFile g.files } else g
-  | none => acc ++ [{ name := fd.name, files := fd.files.foldl addFile [] }]
-
-def buildFolders (n : NodeCfg) : List FolderCfg := n.folders.foldl addFolder []
-
-/-- insertion into a list sorted by key (the repaired loader connects extra NICs in ascending key order). -/
-def insertByKey {α} (e : Nat × α) : List (Nat × α) → List (Nat × α)
-  | [] => [e]
-  | x :: rest => if e.1 ≤ x.1 then e :: x :: rest else x :: insertByKey e rest
-
-def sortByKey {α} (m : List (Nat × α)) : List (Nat × α) := m.foldr insertByKey []
-
-def nicOf (c : IfCfg) : Nic := { name := none, ip := some c.ip, mask := some (c.mask.getD defaultMask) }
-
-/-- `Router.configure_port`: `self.network_interface[port]` raises KeyError for a port that does not exist. -/
-def configurePort (nics : List Nic) (e : Nat × IfCfg) : Option (List Nic) :=
-  if 1 ≤ e.1 ∧ e.1 ≤ nics.length then
-    some (nics.modify (e.1 - 1) fun nic => { nic with ip := some e.2.ip, mask := some (e.2.mask.getD defaultMask) })
-  else none
-
-def foldM? {σ α} (f : σ → α → Option σ) : σ → List α → Option σ
-  | s, [] => some s
-  | s, a :: rest => match f s a with
-    | some s' => foldM? f s' rest
-    | none => none
-
-/-- the `for r_num, r_cfg in acl.items(): acl.add_rule(..., position=r_num)` loop. -/
-def addRules (a : Acl) (m : Assoc Nat Rule) : Option Acl :=
-  foldM? (fun a (e : Nat × Rule) => addRule a e.2 e.1) a m
-
-def routeOf (r : RouteCfg) : RouteInv :=
-  { addr := r.addr, mask := r.mask.getD defaultMask, hop := r.hop, metric := r.metric.getD 0 }
-
-def loopNic (name : Option String) : Nic := { name := name, ip := some loopbackIp, mask := some loopbackMask }
-
-def routerBaseAcl : Acl :=
-  { rules := ((List.replicate aclSlots none).set 22 (some ruleArp)).set 23 (some ruleIcmp), implicit := .deny }
-
-/-- the six firewall ACLs in the order of `fwAclNames`: `if config["acl"][name]: for … .items(): add_rule`
-(`[...]` for the four mandatory names, `.get` for the two external ones). -/
-def buildFwAcls (n : NodeCfg) : List (String × Action × Bool) → Except Err (List (String × Acl))
-  | [] => .ok []
-  | (nm, imp, mandatory) :: rest =>
-    let base : Acl := Acl.empty aclSlots imp
-    let one : Except Err Acl :=
-      if n.fwAclPresent then
-        match alookup nm n.fwAcl with
-        | some m => match addRules base m with
-          | some a => .ok a
-          | none => .error .aclPosition
-        | none => if mandatory then .error .fwAclMissing else .ok base
-      else .ok base
-    match one with
-    | .error e => .error e
-    | .ok a => match buildFwAcls n rest with
-      | .error e => .error e
-      | .ok more => .ok ((nm, a) :: more)
-
-def fwNic (n : NodeCfg) (key name : String) (mandatory : Bool) : Except Err Nic :=
-  match alookup key n.fwPorts with
-  | some c => .ok { name := some name, ip := some c.ip, mask := some (c.mask.getD defaultMask) }
-  | none => if mandatory ∧ ¬ n.fwPorts.isEmpty then .error .fwPortMissing else .ok (loopNic (some name))
-
-/-- `WiredNetworkInterface.enable`: succeeds only on an ON node and only with a link connected. -/
-def enableNic (p : Power) (c : Nic) : Nic := if p = .on ∧ c.wired then { c with enabled := true } else c
-
-/-- `power_on()` at the end of a node's iteration: `for network_interface in …: network_interface.enable()` (no interface has a
-link yet at that point, so nothing is enabled — kept because the loader does it). -/
-def powerOnNics (p : Power) (nics : List Nic) : List Nic := if p = .on then nics.map (enableNic p) else nics
-
-/-- one iteration of `for node_cfg in nodes_cfg` (type-specific `from_config`, users, software, extra NICs, durations,
-`power_on()` when the node is ON). -/
-def buildNode (n : NodeCfg) : Except Err NodeInv :=
-  let common (nics : List Nic) (acls : List (String × Acl)) (net : Bool) : NodeInv :=
-    { kind := n.kind, hostname := n.hostname, power := n.power.getD .on,
-      startUp := n.startUp.getD defaultDuration, shutDown := n.shutDown.getD defaultDuration,
-      dns := n.dns, gateway := n.gateway, nics := powerOnNics (n.power.getD .on) nics, acls := acls,
-      routes := if net then n.routes.map routeOf else [],
-      defaultRoute := if net then n.defaultRoute else none,
-      software := softInventory (powerOnSoftware (n.power.getD .on)
-        (installedAfter (installAll (n.power.getD .on) n.kind n))),
-      users := if n.kind = .switch then [] else buildUsers n,
-      folders := if net then [] else buildFolders n }
-  match n.kind with
-  | .computer | .server | .printer =>
-    match n.ip with
-    | none => .error .hostNoAddress
-    | some ip =>
-      let first : Nic := { name := none, ip := some ip, mask := some (n.mask.getD defaultMask) }
-      .ok (common (first :: (sortByKey n.nics).map (fun e => nicOf e.2)) [] false)
-  | .switch =>
-    .ok (common (List.replicate (n.numPorts.getD defaultSwitchPorts) { name := none, ip := none, mask := none }) [] true)
-  | .router =>
-    let nics0 := List.replicate (n.numPorts.getD defaultRouterPorts) (loopNic none)
-    match foldM? configurePort nics0 n.ports with
-    | none => .error .noSuchPort
-    | some nics =>
-      match addRules routerBaseAcl n.acl with
-      | none => .error .aclPosition
-      | some acl => .ok (common nics [("acl", acl)] true)
-  | .firewall =>
-    match fwNic n "internal_port" "internal" true, fwNic n "external_port" "external" true, fwNic n "dmz_port" "dmz" false with
-    | .ok i, .ok e, .ok d =>
-      match buildFwAcls n fwAclNames with
-      | .error er => .error er
-      | .ok acls => .ok (common [e, i, d] (("acl", routerBaseAcl) :: acls) true)
-    | .error er, _, _ => .error er
-    | _, .error er, _ => .error er
-    | _, _, .error er => .error er
-
-def buildNodes : List NodeCfg → Except Err (List NodeInv)
-  | [] => .ok []
-  | n :: rest => match buildNode n with
-    | .error e => .error e
-    | .ok x => match buildNodes rest with
-      | .error e => .error e
-      | .ok xs => .ok (x :: xs)
-
-/-- `net.get_node_by_hostname`: first node of that name. -/
-def findNode (nodes : List NodeInv) (h : String) : Option NodeInv := nodes.find? (·.hostname = h)
-
-/-- `WiredNetworkInterface.connect_link`: refused when the interface already has a link; otherwise the link is attached and
-`enable()` is attempted (it succeeds iff the node is ON). -/
-def plug (p : Power) (c : Nic) : Nic := if c.wired then c else enableNic p { c with wired := true }
-
-def plugNode (n : NodeInv) (port : Nat) : NodeInv := { n with nics := n.nics.modify (port - 1) (plug n.power) }
-
-/-- the interface `port` of the first node named `h` gets the link -/
-def plugAt : List NodeInv → String → Nat → List NodeInv
-  | [], _, _ => []
-  | n :: rest, h, port => if n.hostname = h then plugNode n port :: rest else n :: plugAt rest h port
-
-/-- one iteration of `for link_cfg in links_cfg`: the endpoints are looked up (KeyError / AttributeError otherwise). -/
-def buildLink (nodes : List NodeInv) (l : LinkCfg) : Except Err LinkInv :=
-  match findNode nodes l.a, findNode nodes l.b with
-  | some na, some nb =>
-    if 1 ≤ l.pa ∧ l.pa ≤ na.nics.length ∧ 1 ≤ l.pb ∧ l.pb ≤ nb.nics.length then
-      if l.a = l.b then .error .sameNode
-      else .ok { a := l.a, pa := l.pa, b := l.b, pb := l.pb, bandwidth := l.bandwidth.getD defaultBandwidth }
-    else .error .noSuchPort
-  | _, _ => .error .noSuchNode
-
-/-- the `links` loop: `Network.connect` creates the `Link`, whose constructor attaches it to endpoint a, then to endpoint b.
-Returns the nodes (interfaces now wired / enabled) and the links. -/
-def buildLinks (nodes : List NodeInv) : List LinkCfg → Except Err (List NodeInv × List LinkInv)
-  | [] => .ok (nodes, [])
-  | l :: rest => match buildLink nodes l with
-    | .error e => .error e
-    | .ok x => match buildLinks (plugAt (plugAt nodes l.a l.pa) l.b l.pb) rest with
-      | .error e => .error e
-      | .ok (ns, xs) => .ok (ns, x :: xs)
-
-/-- `ActionManager.__init__`: `{n: (v.action, v.options) for n, v in action_map.items()}`; observed through
-`action_map[i]` for `i < len(action_map)` (that is how `get_action`, the mask and the action space use it). -/
-def actionsOf (m : Assoc Nat ActionCfg) : List (Option ActionCfg) :=
-  (List.range m.length).map fun i => alookup i m
-
-def agentOf (a : AgentCfg) : AgentInv :=
-  { ref := a.ref, type := a.type, team := a.team, actions := actionsOf a.actionMap, rewards := a.rewards,
-    settings := a.settings }
-
-/-- `game.agents[agent_cfg["ref"]] = new_agent`: a later agent of the same ref replaces the earlier one in place. -/
-def putAgent (acc : List AgentInv) (a : AgentInv) : List AgentInv :=
-  if acc.any (·.ref = a.ref) then acc.map (fun x => if x.ref = a.ref then a else x) else acc ++ [a]
-
-def buildAgents (as : List AgentCfg) : List AgentInv := as.foldl (fun acc a => putAgent acc (agentOf a)) []
-
-/-- `PrimaiteGame.from_config`, for the node types, link and agent sections modelled here. -/
-def build (s : Scenario) : Except Err Inventory :=
-  match buildNodes s.nodes with
-  | .error e => .error e
-  | .ok nodes => match buildLinks nodes s.links with
-    | .error e => .error e
-    | .ok (wired, links) => .ok { nodes := wired, links := links, agents := buildAgents s.agents }
-
-/-! ## what the documentation says the file declares -/
-
-/-- ACL slot `i`: the rule the file puts at position `i`, else the loader's default rule there, else empty. -/
-def declaredAcl (base : Acl) (m : Assoc Nat Rule) : Acl :=
-  { base with rules := (List.range base.rules.length).map fun i =>
-      match alookup i m with
-      | some r => some { r with hits := 0 }
-      | none => (base.rules[i]?).join }
-
-/-- router port `k` (1-based): the address the file gives under key `k`, else the unconfigured loopback default. -/
-def declaredPorts (num : Nat) (m : Assoc Nat IfCfg) : List Nic :=
-  (List.range num).map fun i =>
-    match alookup (i + 1) m with
-    | some c => { name := none, ip := some c.ip, mask := some (c.mask.getD defaultMask) }
-    | none => loopNic none
-
-/-- extra host NICs: the entries of `network_interfaces` become NIC 2, 3, … in ascending key order (the configuration pages
-do not say what the keys mean; every shipped file uses 2, 3, … so that key = NIC number — an `example` in Props/C20.lean). -/
-def declaredNics (m : Assoc Nat IfCfg) : List Nic := (sortByKey m).map fun e => nicOf e.2
-
-/-- every piece of software the node is asked to carry (pre-installed system software, the configured services and
-applications, the FTP client a database service brings along): ONE live instance per name, with the options of the last
-entry that names it (a configured entry for pre-installed system software replaces the bare pre-installed instance). -/
-def declaredSoftware (p : Power) (k : Kind) (n : NodeCfg) : List SoftInv :=
-  (lastReqs (installRequests k n)).map fun r =>
-    { name := r.name, isApp := r.isApp, opts := r.opts, live := 1,
-      -- initial state: software runs exactly on a node that is ON; its health is the configured starting health
-      -- (UNUSED means "never run": on an ON node the software has been started, which makes it GOOD)
-      running := decide (p = .on),
-      health := if p = .on ∧ r.health0 = .unused then .good else r.health0 }
-
-def declaredUsers (n : NodeCfg) : List UserInv :=
-  adminUser :: n.users.map fun u => { name := u.name, password := u.password, admin := u.admin.getD false }
-
-def declaredFwNic (n : NodeCfg) (key name : String) : Nic :=
-  match alookup key n.fwPorts with
-  | some c => { name := some name, ip := some c.ip, mask := some (c.mask.getD defaultMask) }
-  | none => loopNic (some name)
-
-def declaredFwAcls (n : NodeCfg) : List (String × Acl) :=
-  fwAclNames.map fun (nm, imp, _) =>
-    (nm, declaredAcl (Acl.empty aclSlots imp) (if n.fwAclPresent then (alookup nm n.fwAcl).getD [] else []))
-
-def declaredNode (n : NodeCfg) : NodeInv :=
-  let net : Bool := n.kind = .switch ∨ n.kind = .router ∨ n.kind = .firewall
-  { kind := n.kind, hostname := n.hostname, power := n.power.getD .on,
-    startUp := n.startUp.getD defaultDuration, shutDown := n.shutDown.getD defaultDuration,
-    dns := n.dns, gateway := n.gateway,
-    nics := match n.kind with
-      | .computer | .server | .printer =>
-        { name := none, ip := n.ip, mask := some (n.mask.getD defaultMask) } :: declaredNics n.nics
-      | .switch => List.replicate (n.numPorts.getD defaultSwitchPorts) { name := none, ip := none, mask := none }
-      | .router => declaredPorts (n.numPorts.getD defaultRouterPorts) n.ports
-      | .firewall => [declaredFwNic n "external_port" "external", declaredFwNic n "internal_port" "internal",
-                      declaredFwNic n "dmz_port" "dmz"],
-    acls := match n.kind with
-      | .router => [("acl", declaredAcl routerBaseAcl n.acl)]
-      | .firewall => ("acl", routerBaseAcl) :: declaredFwAcls n
-      | _ => [],
-    routes := if net then n.routes.map routeOf else [],
-    defaultRoute := if net then n.defaultRoute else none,
-    software := declaredSoftware (n.power.getD .on) n.kind n,
-    users := if n.kind = .switch then [] else declaredUsers n,
-    folders := if net then [] else n.folders }
-
-def declaredLink (l : LinkCfg) : LinkInv :=
-  { a := l.a, pa := l.pa, b := l.b, pb := l.pb, bandwidth := l.bandwidth.getD defaultBandwidth }
-
-/-- does the file's `links` list name interface `port` of host `h` as an endpoint? -/
-def namesEndpoint (links : List LinkCfg) (h : String) (port : Nat) : Bool :=
-  links.any fun l => (decide (l.a = h) && decide (l.pa = port)) || (decide (l.b = h) && decide (l.pb = port))
-
-/-- initial state of the interfaces: interface `i` is wired iff a link of the file ends there, and enabled iff it is wired and
-the node is ON. -/
-def declaredWiring (links : List LinkCfg) (n : NodeInv) : NodeInv :=
-  { n with nics := n.nics.mapIdx fun i c =>
-      if namesEndpoint links n.hostname (i + 1) then
-        { c with wired := true, enabled := decide (n.power = .on) } else c }
-
-def declared (s : Scenario) : Inventory :=
-  { nodes := (s.nodes.map declaredNode).map (declaredWiring s.links), links := s.links.map declaredLink,
-    agents := s.agents.map agentOf }
-
-/-! ## episode schedules (`EpisodeListScheduler.__call__`) -/
-
-structure Schedule (Doc : Type) where
-  /-- `schedule:` mapping of schedule.yaml: episode number → list of file names (read by key) -/
-  schedule : Assoc Nat (List String)
-  /-- file name → text of that file (read by key) -/
-  files : Assoc String Doc
-  base : Doc
-
-/-- the documents whose texts are joined (in this order) and parsed for episode `n`; `none` where Python raises
-KeyError (schedule without key `n mod len`, or a file name that was not loaded). -/
-def scheduleDocs {Doc} (s : Schedule Doc) (n : Nat) : Option (List Doc) :=
-  if s.schedule.length = 0 then none else
-  let e := if n ≥ s.schedule.length then n % s.schedule.length else n
-  match alookup e s.schedule with
-  | none => none
-  | some names =>
-    match names.mapM (fun f => alookup f s.files) with
-    | none => none
-    | some docs => some (docs ++ [s.base])
-
-/-- flattening of the `agents` list by one level (`isinstance(a, Sequence)` → extend, else append). -/
-def flattenAgents {α} : List (α ⊕ List α) → List α
-  | [] => []
-  | .inl a :: rest => a :: flattenAgents rest
-  | .inr as :: rest => as ++ flattenAgents rest
 
 /-! ## the `office-lan` node set (`OfficeLANAdder.add_nodes_to_net`, creation.py)
 
@@ -686,17 +361,6 @@ The adder is an imperative loop with three counters (current edge switch, next f
 switch). `officeBuild` follows it statement by statement; `officeDeclared` is the closed form of docs/source/node_sets.rst:
 `num_pcs` computers, one 24-port edge switch per 23 computers (port 24 is the uplink), a core switch when more than one edge
 switch is needed, an optional router on port 24 of the core switch (or of the only edge switch). -/
-
-structure OfficeCfg where
-  lanName : String
-  subnetBase : Nat
-  ipStart : Nat
-  numPcs : Nat
-  /-- `include_router` (`none` = key absent: default True) -/
-  includeRouter : Option Bool := none
-  /-- `bandwidth` (`none` = key absent: default 100) -/
-  bandwidth : Option Nat := none
-deriving DecidableEq, Repr
 
 inductive OKind | core | edge | router | pc
 deriving DecidableEq, Repr
@@ -822,5 +486,699 @@ def officeDeclared (c : OfficeCfg) : OfficeInv :=
       ++ (if multi then [oLink (coreName lan) 1 (edgeName lan 1) uplinkPort bw]
           else if hasRouter then [oLink (routerName lan) 1 (edgeName lan 1) uplinkPort bw] else [])
       ++ (List.range' 1 c.numPcs).flatMap (declaredPcLinks c) }
+
+/-! ## the loader, statement by statement -/
+
+/-- a software instance held by the node (`node.services` / `node.applications`), in install order -/
+structure Soft where
+  name : String
+  isApp : Bool
+  /-- the configuration the instance was constructed with (`config`) -/
+  opts : Assoc String String
+  /-- `operating_state` is RUNNING (else STOPPED / CLOSED) -/
+  running : Bool := false
+  /-- `health_state_actual` -/
+  health : Health := .good
+  imposedFix : Option Nat := none
+  imposedRestart : Option Nat := none
+deriving DecidableEq, Repr
+
+/-- one call of `software_manager.install(cls, config)` as the loader makes it -/
+structure SoftReq where
+  name : String
+  isApp : Bool
+  opts : Assoc String String
+  /-- `config.starting_health_state` -/
+  health0 : Health := .good
+  /-- the class's `__init__` ends with `self.start()` / `self.run()` -/
+  initStarts : Bool := false
+  /-- the request comes from a `services:` / `applications:` entry: the loader calls `.start()` / `.run()` on it afterwards -/
+  configured : Bool := false
+  /-- what the `defaults:` section does to a configured service after installing it -/
+  imposedFix : Option Nat := none
+  imposedRestart : Option Nat := none
+deriving DecidableEq, Repr
+
+/-! ### configured options and the live attributes that carry them
+
+`initApplies` is the regenerated table `Gen.Config.softwareInitApplies` (tied in Props/C20.lean): every statement
+`self.<attribute> = self.config.<option>` of every software constructor, as (class, attribute, option). `classChain` lists, for
+each software name, the classes whose constructors run (base class first). A constructor chain is modelled as the fold of these
+assignments over an (initially empty) attribute table. -/
+
+def initApplies : List (String × String × String) := [
+  ("C2Beacon", "c2_remote_connection", "c2_server_ip_address"),
+  ("DNSServer", "dns_table", "domain_mapping"),
+  ("DataManipulationBot", "data_manipulation_p_of_success", "data_manipulation_p_of_success"),
+  ("DataManipulationBot", "payload", "payload"),
+  ("DataManipulationBot", "port_scan_p_of_success", "port_scan_p_of_success"),
+  ("DataManipulationBot", "repeat", "repeat"),
+  ("DataManipulationBot", "server_ip_address", "server_ip"),
+  ("DataManipulationBot", "server_password", "server_password"),
+  ("DatabaseClient", "server_ip_address", "db_server_ip"),
+  ("DatabaseClient", "server_password", "server_password"),
+  ("DatabaseService", "backup_server_ip", "backup_server_ip"),
+  ("DoSBot", "dos_intensity", "dos_intensity"),
+  ("DoSBot", "max_sessions", "max_sessions"),
+  ("DoSBot", "payload", "payload"),
+  ("DoSBot", "port_scan_p_of_success", "port_scan_p_of_success"),
+  ("DoSBot", "repeat", "repeat"),
+  ("DoSBot", "target_ip_address", "target_ip_address"),
+  ("DoSBot", "target_port", "target_port"),
+  ("IOSoftware", "listen_on_ports", "listen_on_ports"),
+  ("NTPClient", "ntp_server", "ntp_server_ip"),
+  ("RansomwareScript", "payload", "payload"),
+  ("RansomwareScript", "server_ip_address", "server_ip"),
+  ("RansomwareScript", "server_password", "server_password"),
+  ("Software", "health_state_actual", "starting_health_state")]
+
+/-- software name → the classes whose `__init__` run when it is constructed, base first (`Gen.Config.softwareChains`) -/
+def classChains : List (String × List String) := [
+  ("arp", ["Software", "IOSoftware", "Service", "ARP"]),
+  ("c2-beacon", ["Software", "IOSoftware", "Application", "AbstractC2", "C2Beacon"]),
+  ("c2-server", ["Software", "IOSoftware", "Application", "AbstractC2", "C2Server"]),
+  ("data-manipulation-bot", ["Software", "IOSoftware", "Application", "DataManipulationBot"]),
+  ("database-client", ["Software", "IOSoftware", "Application", "DatabaseClient"]),
+  ("database-service", ["Software", "IOSoftware", "Service", "DatabaseService"]),
+  ("dns-client", ["Software", "IOSoftware", "Service", "DNSClient"]),
+  ("dns-server", ["Software", "IOSoftware", "Service", "DNSServer"]),
+  ("dos-bot", ["Software", "IOSoftware", "Application", "DatabaseClient", "DoSBot"]),
+  ("ftp-client", ["Software", "IOSoftware", "Service", "FTPServiceABC", "FTPClient"]),
+  ("ftp-server", ["Software", "IOSoftware", "Service", "FTPServiceABC", "FTPServer"]),
+  ("icmp", ["Software", "IOSoftware", "Service", "ICMP"]),
+  ("nmap", ["Software", "IOSoftware", "Application", "NMAP"]),
+  ("ntp-client", ["Software", "IOSoftware", "Service", "NTPClient"]),
+  ("ntp-server", ["Software", "IOSoftware", "Service", "NTPServer"]),
+  ("ransomware-script", ["Software", "IOSoftware", "Application", "RansomwareScript"]),
+  ("terminal", ["Software", "IOSoftware", "Service", "Terminal"]),
+  ("web-browser", ["Software", "IOSoftware", "Application", "WebBrowser"]),
+  ("web-server", ["Software", "IOSoftware", "Service", "WebServer"])]
+
+/-- the assignments a constructor chain performs, in execution order -/
+def chainRows (name : String) : List (String × String × String) :=
+  ((alookup name classChains).getD []).flatMap fun c => initApplies.filter (fun r => r.1 = c)
+
+/-- dict / attribute assignment: replace the entry of that key, else append -/
+def aset {κ α} [DecidableEq κ] (k : κ) (v : α) : Assoc κ α → Assoc κ α
+  | [] => [(k, v)]
+  | (k', v') :: rest => if k' = k then (k, v) :: rest else (k', v') :: aset k v rest
+
+/-- the live attributes after the constructors ran: each row assigns `self.<attr> = self.config.<opt>` (an option the file does
+not give has the schema's default, which the model does not know: `none`) -/
+def constructLive (rows : List (String × String × String)) (opts : Assoc String String) : Assoc String (Option String) :=
+  rows.foldl (fun live r => aset r.2.1 (alookup r.2.2 opts) live) []
+
+/-- the value of option `k` as the walker reads it off the built software `name`: from the live attribute a constructor assigned
+it to (the LAST such row), else from the config object (the software reads it there at the time of use) -/
+def readOption (name : String) (opts : Assoc String String) (k : String) : Option String :=
+  match (chainRows name).reverse.find? (fun r => r.2.2 = k) with
+  | some r => (alookup r.2.1 (constructLive (chainRows name) opts)).join
+  | none => alookup k opts
+
+def readAll (name : String) (opts : Assoc String String) : Assoc String (Option String) :=
+  opts.map fun e => (e.1, readOption name opts e.1)
+
+/-- `Service.start` / `Application.run`: refused unless the node is ON (`Software._can_perform_action`); from STOPPED / CLOSED the
+software becomes RUNNING and a health of UNUSED becomes GOOD. -/
+def startSw (p : Power) (s : Soft) : Soft :=
+  if p = .on ∧ s.running = false then
+    { s with running := true, health := if s.health = .unused then .good else s.health }
+  else s
+
+/-- the life of one instance from its constructor to the loader's own `.start()` / `.run()`:
+`Software.__init__` (`health_state_actual = config.starting_health_state`), the class's `__init__` (some end with
+`self.start()` / `self.run()`), `SoftwareManager.install` (a service is started, an application's state is set to CLOSED),
+then for configured entries `new_service.start()` / `new_application.run()`. -/
+def newInstance (p : Power) (r : SoftReq) : Soft :=
+  let s0 : Soft := { name := r.name, isApp := r.isApp, opts := r.opts, running := false, health := r.health0,
+                     imposedFix := r.imposedFix, imposedRestart := r.imposedRestart }
+  let s1 := if r.initStarts then startSw p s0 else s0
+  let s2 := if r.isApp then { s1 with running := false } else startSw p s1
+  if r.configured then startSw p s2 else s2
+
+/-- `software_manager.software[name]`: the most recently registered live instance of that name. -/
+def registered (insts : List Soft) (name : String) : Option Soft :=
+  insts.reverse.find? (·.name = name)
+
+/-- `SoftwareManager.install` of one instance (code after `fix: SoftwareManager.install created a second live instance …`):
+`if software.name in self.software: self.uninstall(software.name)` removes the installed namesake from `node.services` /
+`node.applications`, its request route, the port table and the class map; then the new instance is appended
+(`node.services[software.uuid] = software`, `self.software[software.name] = software`). The bare-reinstall refusal
+(`software_class in _software_class_to_name_map and software_config is None`) cannot fire in the loader: system software is
+installed once per class, `from_config` always passes a configuration mapping, and `DatabaseService.install` asks for the
+FTP client only when none is registered (`installServices`). -/
+def installOne (insts : List Soft) (s : Soft) : List Soft :=
+  insts.filter (fun x => !decide (x.name = s.name)) ++ [s]
+
+/-- the live instances after a sequence of `install` calls on a fresh node -/
+def installedAfter (reqs : List Soft) : List Soft := reqs.foldl installOne []
+
+/-- of several requests for one software name the last one counts; listed in the order of those last requests. -/
+def lastRequests : List Soft → List Soft
+  | [] => []
+  | s :: rest => if rest.any (fun x => decide (x.name = s.name)) then lastRequests rest else s :: lastRequests rest
+
+/-- the same selection on the requests themselves -/
+def lastReqs : List SoftReq → List SoftReq
+  | [] => []
+  | s :: rest => if rest.any (fun x => decide (x.name = s.name)) then lastReqs rest else s :: lastReqs rest
+
+def liveCount (insts : List Soft) (name : String) : Nat := (insts.filter (·.name = name)).length
+
+/-- the software inventory as the walker sees it: for every live instance, the registry entry of its name, the number of live
+instances of that name, and every declared option read off the live object. -/
+def softInventory (insts : List Soft) : List SoftInv :=
+  insts.map fun s =>
+    match registered insts s.name with
+    | some r => { name := r.name, isApp := r.isApp, opts := readAll r.name r.opts, live := liveCount insts s.name,
+                  running := r.running, health := r.health, imposedFix := r.imposedFix, imposedRestart := r.imposedRestart }
+    | none => { name := s.name, isApp := s.isApp, opts := readAll s.name s.opts, live := 0, running := s.running,
+                health := s.health }   -- unreachable: s itself is there
+
+/-- the request a `services:` entry makes; after the install the `defaults:` section is applied to the new service:
+`service_fix_duration` unless the entry configures its own `fixing_duration` (repaired code), `service_restart_duration` always -/
+def svcReq (d : DefaultsCfg) (c : SwCfg) : SoftReq :=
+  { name := c.type, isApp := false, opts := c.opts, health0 := c.health.getD .good, initStarts := c.initStarts, configured := true,
+    imposedFix := if (alookup "fixing_duration" c.opts).isSome then none else d.svcFix,
+    imposedRestart := d.svcRestart }
+
+/-- the request an `applications:` entry makes -/
+def appReq (c : SwCfg) : SoftReq :=
+  { name := c.type, isApp := true, opts := c.opts, health0 := c.health.getD .good, initStarts := c.initStarts, configured := true }
+
+/-- `_install_system_software`: the class is installed without a configuration -/
+def sysReq (e : String × Bool) : SoftReq := { name := e.1, isApp := e.2, opts := [] }
+
+/-- the `FTPClient` that `DatabaseService.install()` installs (its `__init__` starts it) -/
+def ftpAuto : SoftReq := { name := "ftp-client", isApp := false, opts := [], initStarts := true }
+
+/-- the `services:` loop: `software_manager.install(cls, options)`; `DatabaseService.install()` additionally installs an
+`FTPClient` when `software.get("ftp-client")` is empty at that moment. `seen` = names registered so far. -/
+def installServices (d : DefaultsCfg) (seen : List String) : List SwCfg → List SoftReq
+  | [] => []
+  | c :: rest =>
+    if c.type = "database-service" ∧ "ftp-client" ∉ seen then
+      svcReq d c :: ftpAuto :: installServices d ("ftp-client" :: c.type :: seen) rest
+    else svcReq d c :: installServices d (c.type :: seen) rest
+
+/-- every `install()` of a node in call order: `_install_system_software`, the `services:` loop, the `applications:` loop. -/
+def installRequests (d : DefaultsCfg) (k : Kind) (n : NodeCfg) : List SoftReq :=
+  (systemSoftware k).map sysReq ++ installServices d ((systemSoftware k).map (·.1)) n.services ++ n.applications.map appReq
+
+/-- the instances those calls create, each after its own constructor / install / loader start, on a node whose operating state
+is `p` throughout loading -/
+def installAll (d : DefaultsCfg) (p : Power) (k : Kind) (n : NodeCfg) : List Soft :=
+  (installRequests d k n).map (newInstance p)
+
+/-- `if new_node.operating_state == ON: new_node.power_on()` with `start_up_duration` temporarily 0: `_start_up_actions` starts
+every service and runs every application (a node in any other state is left alone). -/
+def powerOnSoftware (p : Power) (insts : List Soft) : List Soft :=
+  if p = .on then insts.map (startSw p) else insts
+
+/-- `UserManager.add_user`: refused when the name exists. Called from `Node.__init__` and again from `from_config`. -/
+def addUser (us : List UserInv) (u : UserCfg) : List UserInv :=
+  if us.any (·.name = u.name) then us else us ++ [{ name := u.name, password := u.password, admin := u.admin.getD false }]
+
+def adminUser : UserInv := { name := "admin", password := "admin", admin := true }
+
+def buildUsers (n : NodeCfg) : List UserInv :=
+  n.users.foldl addUser (n.users.foldl addUser [adminUser])
+
+/-- `FileSystem.create_folder` / `create_file` as called from `HostNode.__init__`: an existing name is not created again. -/
+def addFile (fs : List FileCfg) (f : FileCfg) : List FileCfg :=
+  if fs.any (·.name = f.name) then fs else fs ++ [f]
+
+def addFolder (acc : List FolderCfg) (fd : FolderCfg) : List FolderCfg :=
+  match acc.find? (·.name = fd.name) with
+  | some _ => acc.map fun g => if g.name = fd.name then { g with files := fd.files.foldl addFile g.files } else g
+  | none => acc ++ [{ name := fd.name, files := fd.files.foldl addFile [] }]
+
+def buildFolders (n : NodeCfg) : List FolderCfg := n.folders.foldl addFolder []
+
+/-- insertion into a list sorted by key (the repaired loader connects extra NICs in ascending key order). -/
+def insertByKey {α} (e : Nat × α) : List (Nat × α) → List (Nat × α)
+  | [] => [e]
+  | x :: rest => if e.1 ≤ x.1 then e :: x :: rest else x :: insertByKey e rest
+
+def sortByKey {α} (m : List (Nat × α)) : List (Nat × α) := m.foldr insertByKey []
+
+def nicOf (c : IfCfg) : Nic := { name := none, ip := some c.ip, mask := some (c.mask.getD defaultMask) }
+
+/-- `Router.configure_port`: `self.network_interface[port]` raises KeyError for a port that does not exist. -/
+def configurePort (nics : List Nic) (e : Nat × IfCfg) : Option (List Nic) :=
+  if 1 ≤ e.1 ∧ e.1 ≤ nics.length then
+    some (nics.modify (e.1 - 1) fun nic => { nic with ip := some e.2.ip, mask := some (e.2.mask.getD defaultMask) })
+  else none
+
+def foldM? {σ α} (f : σ → α → Option σ) : σ → List α → Option σ
+  | s, [] => some s
+  | s, a :: rest => match f s a with
+    | some s' => foldM? f s' rest
+    | none => none
+
+/-- the `for r_num, r_cfg in acl.items(): acl.add_rule(..., position=r_num)` loop. -/
+def addRules (a : Acl) (m : Assoc Nat Rule) : Option Acl :=
+  foldM? (fun a (e : Nat × Rule) => addRule a e.2 e.1) a m
+
+def routeOf (r : RouteCfg) : RouteInv :=
+  { addr := r.addr, mask := r.mask.getD defaultMask, hop := r.hop, metric := r.metric.getD 0 }
+
+def loopNic (name : Option String) : Nic := { name := name, ip := some loopbackIp, mask := some loopbackMask }
+
+def routerBaseAcl : Acl :=
+  { rules := ((List.replicate aclSlots none).set 22 (some ruleArp)).set 23 (some ruleIcmp), implicit := .deny }
+
+/-- the six firewall ACLs in the order of `fwAclNames`: `if config["acl"][name]: for … .items(): add_rule`
+(`[...]` for the four mandatory names, `.get` for the two external ones). -/
+def buildFwAcls (n : NodeCfg) : List (String × Action × Bool) → Except Err (List (String × Acl))
+  | [] => .ok []
+  | (nm, imp, mandatory) :: rest =>
+    let base : Acl := Acl.empty aclSlots imp
+    let one : Except Err Acl :=
+      if n.fwAclPresent then
+        match alookup nm n.fwAcl with
+        | some m => match addRules base m with
+          | some a => .ok a
+          | none => .error .aclPosition
+        | none => if mandatory then .error .fwAclMissing else .ok base
+      else .ok base
+    match one with
+    | .error e => .error e
+    | .ok a => match buildFwAcls n rest with
+      | .error e => .error e
+      | .ok more => .ok ((nm, a) :: more)
+
+def fwNic (n : NodeCfg) (key name : String) (mandatory : Bool) : Except Err Nic :=
+  match alookup key n.fwPorts with
+  | some c => .ok { name := some name, ip := some c.ip, mask := some (c.mask.getD defaultMask) }
+  | none => if mandatory ∧ ¬ n.fwPorts.isEmpty then .error .fwPortMissing else .ok (loopNic (some name))
+
+/-- `WiredNetworkInterface.enable`: succeeds only on an ON node and only with a link connected. -/
+def enableNic (p : Power) (c : Nic) : Nic := if p = .on ∧ c.wired then { c with enabled := true } else c
+
+/-- `power_on()` at the end of a node's iteration: `for network_interface in …: network_interface.enable()` (no interface has a
+link yet at that point, so nothing is enabled — kept because the loader does it). -/
+def powerOnNics (p : Power) (nics : List Nic) : List Nic := if p = .on then nics.map (enableNic p) else nics
+
+/-- is `f` a registered airspace frequency (`AirSpaceFrequency._registry[f]`)? -/
+def knownFrequency (f : String) : Bool := frequencies.any (·.1 = f)
+
+/-- one iteration of `for node_cfg in nodes_cfg` (type-specific `from_config`, the `defaults:` section, users, software, extra
+NICs, durations, `power_on()` when the node is ON). -/
+def buildNode (d : DefaultsCfg) (n : NodeCfg) : Except Err NodeInv :=
+  let p := n.power.getD .on
+  let common (nics : List Nic) (acls : List (String × Acl)) (net : Bool) : NodeInv :=
+    { kind := n.kind, hostname := n.hostname, power := p,
+      -- `int(node_cfg.get("start_up_duration", defaults_config.get("node_start_up_duration", 3)))` (repaired code)
+      startUp := n.startUp.getD (d.nodeStartUp.getD defaultDuration),
+      shutDown := n.shutDown.getD (d.nodeShutDown.getD defaultDuration),
+      scan := d.nodeScan.getD defaultScan, folderScan := d.folderScan, folderRestore := d.folderRestore,
+      dns := n.dns, gateway := n.gateway, nics := powerOnNics p nics, acls := acls,
+      routes := if net then n.routes.map routeOf else [],
+      defaultRoute := if net then n.defaultRoute else none,
+      software := softInventory (powerOnSoftware p (installedAfter (installAll d p n.kind n))),
+      users := if n.kind = .switch then [] else buildUsers n,
+      folders := if net then [] else buildFolders n }
+  match n.kind with
+  | .computer | .server | .printer =>
+    match n.ip with
+    | none => .error .hostNoAddress
+    | some ip =>
+      let first : Nic := { name := none, ip := some ip, mask := some (n.mask.getD defaultMask) }
+      .ok (common (first :: (sortByKey n.nics).map (fun e => nicOf e.2)) [] false)
+  | .switch =>
+    .ok (common (List.replicate (n.numPorts.getD defaultSwitchPorts) { name := none, ip := none, mask := none }) [] true)
+  | .router =>
+    let nics0 := List.replicate (n.numPorts.getD defaultRouterPorts) (loopNic none)
+    match foldM? configurePort nics0 n.ports with
+    | none => .error .noSuchPort
+    | some nics =>
+      match addRules routerBaseAcl n.acl with
+      | none => .error .aclPosition
+      | some acl => .ok (common nics [("acl", acl)] true)
+  | .firewall =>
+    match fwNic n "internal_port" "internal" true, fwNic n "external_port" "external" true, fwNic n "dmz_port" "dmz" false with
+    | .ok i, .ok e, .ok d =>
+      match buildFwAcls n fwAclNames with
+      | .error er => .error er
+      | .ok acls => .ok (common [e, i, d] (("acl", routerBaseAcl) :: acls) true)
+    | .error er, _, _ => .error er
+    | _, .error er, _ => .error er
+    | _, _, .error er => .error er
+  | .wirelessRouter =>
+    -- `WirelessRouter.__init__`: no wired ports of its own (`num_ports: 0`), then port 1 = the wireless access point, port 2 = the
+    -- router interface, both 127.0.0.1/8. A wireless interface needs no link: it is enabled whenever the node is ON
+    -- (`connect_nic`, and again at the end of `configure_wireless_access_point`).
+    let rif : Nic := match n.routerIf with
+      | some (ip, m) => { name := none, ip := some ip, mask := some m }
+      | none => loopNic none
+    let wap : Except Err Nic := match n.wap with
+      | some w =>
+        if knownFrequency w.frequency then
+          .ok { name := none, ip := some w.ip, mask := some w.mask, enabled := decide (p = .on), frequency := some w.frequency }
+        else .error .noSuchFrequency
+      | none => .ok { name := none, ip := some loopbackIp, mask := some loopbackMask, enabled := decide (p = .on),
+                      frequency := some defaultFrequency }
+    match wap with
+    | .error e => .error e
+    | .ok w =>
+      match addRules routerBaseAcl n.acl with
+      | none => .error .aclPosition
+      | some acl => .ok (common [w, rif] [("acl", acl)] true)
+
+def buildNodes (d : DefaultsCfg) : List NodeCfg → Except Err (List NodeInv)
+  | [] => .ok []
+  | n :: rest => match buildNode d n with
+    | .error e => .error e
+    | .ok x => match buildNodes d rest with
+      | .error e => .error e
+      | .ok xs => .ok (x :: xs)
+
+/-- `net.get_node_by_hostname`: first node of that name. -/
+def findNode (nodes : List NodeInv) (h : String) : Option NodeInv := nodes.find? (·.hostname = h)
+
+/-- `WiredNetworkInterface.connect_link`: refused when the interface already has a link; otherwise the link is attached and
+`enable()` is attempted (it succeeds iff the node is ON). -/
+def plug (p : Power) (c : Nic) : Nic :=
+  -- (a wireless access point has no `connect_link`: `buildLink` has raised before a scenario link gets here, and the
+  -- office-lan adder never wires one)
+  if c.frequency.isSome ∨ c.wired then c else enableNic p { c with wired := true }
+
+def plugNode (n : NodeInv) (port : Nat) : NodeInv := { n with nics := n.nics.modify (port - 1) (plug n.power) }
+
+/-- the interface `port` of the first node named `h` gets the link -/
+def plugAt : List NodeInv → String → Nat → List NodeInv
+  | [], _, _ => []
+  | n :: rest, h, port => if n.hostname = h then plugNode n port :: rest else n :: plugAt rest h port
+
+/-- one iteration of `for link_cfg in links_cfg`: the endpoints are looked up (KeyError / AttributeError otherwise). -/
+def buildLink (nodes : List NodeInv) (l : LinkCfg) : Except Err LinkInv :=
+  match findNode nodes l.a, findNode nodes l.b with
+  | some na, some nb =>
+    if 1 ≤ l.pa ∧ l.pa ≤ na.nics.length ∧ 1 ≤ l.pb ∧ l.pb ≤ nb.nics.length then
+      if l.a = l.b then .error .sameNode
+      else if (na.nics[l.pa - 1]?.bind (·.frequency)).isSome ∨ (nb.nics[l.pb - 1]?.bind (·.frequency)).isSome then
+        .error .wirelessEndpoint
+      else .ok { a := l.a, pa := l.pa, b := l.b, pb := l.pb, bandwidth := l.bandwidth.getD defaultBandwidth }
+    else .error .noSuchPort
+  | _, _ => .error .noSuchNode
+
+/-- the `links` loop: `Network.connect` creates the `Link`, whose constructor attaches it to endpoint a, then to endpoint b.
+Returns the nodes (interfaces now wired / enabled) and the links. -/
+def buildLinks (nodes : List NodeInv) : List LinkCfg → Except Err (List NodeInv × List LinkInv)
+  | [] => .ok (nodes, [])
+  | l :: rest => match buildLink nodes l with
+    | .error e => .error e
+    | .ok x => match buildLinks (plugAt (plugAt nodes l.a l.pa) l.b l.pb) rest with
+      | .error e => .error e
+      | .ok (ns, xs) => .ok (ns, x :: xs)
+
+/-- `ActionManager.__init__`: `{n: (v.action, v.options) for n, v in action_map.items()}`; observed through
+`action_map[i]` for `i < len(action_map)` (that is how `get_action`, the mask and the action space use it). -/
+def actionsOf (m : Assoc Nat ActionCfg) : List (Option ActionCfg) :=
+  (List.range m.length).map fun i => alookup i m
+
+def agentOf (a : AgentCfg) : AgentInv :=
+  { ref := a.ref, type := a.type, team := a.team, actions := actionsOf a.actionMap, rewards := a.rewards,
+    settings := a.settings }
+
+/-- `game.agents[agent_cfg["ref"]] = new_agent`: a later agent of the same ref replaces the earlier one in place. -/
+def putAgent (acc : List AgentInv) (a : AgentInv) : List AgentInv :=
+  if acc.any (·.ref = a.ref) then acc.map (fun x => if x.ref = a.ref then a else x) else acc ++ [a]
+
+def buildAgents (as : List AgentCfg) : List AgentInv := as.foldl (fun acc a => putAgent acc (agentOf a)) []
+
+/-! ### `game:`, `airspace:` and `node_sets:` -/
+
+def gameOf (g : GameCfg) : GameInv :=
+  { maxLen := g.maxLen.getD defaultEpisodeLength, seed := g.seed, ports := g.ports, protocols := g.protocols,
+    thresholds := g.thresholds }
+
+/-- one iteration of `for freq, mbps in cfg.items(): self.frequencies[freq].data_rate_bps = …` (KeyError for an unknown name) -/
+def setCapacity (reg : List (String × String)) (e : String × String) : Option (List (String × String)) :=
+  if reg.any (·.1 = e.1) then some (reg.map fun r => if r.1 = e.1 then (r.1, e.2) else r) else none
+
+def buildAirspace (cfg : Assoc String String) : Option (List (String × String)) := foldM? setCapacity frequencies cfg
+
+def ipv4 (a b c d : Nat) : Ip := BitVec.ofNat 32 (a * 16777216 + b * 65536 + c * 256 + d)
+
+/-- what a node created by the `office-lan` adder is, as a node entry: `Switch.from_config({… "num_ports": 24})`,
+`Router.from_config({hostname, type, start_up_duration: 0})` + `configure_port(1, gateway, /24)` + the two rules the adder adds
+at 22 / 23, `Computer.from_config({… ip_address, default_gateway, start_up_duration: 0})`. -/
+def officeNodeCfg (c : OfficeCfg) (o : ONode) : NodeCfg :=
+  match o.kind with
+  | .core | .edge => { kind := .switch, hostname := o.name, startUp := some 0, numPorts := some uplinkPort }
+  | .router => { kind := .router, hostname := o.name, startUp := some 0,
+                 ports := [(1, { ip := ipv4 192 168 c.subnetBase (o.octet.getD 1), mask := some defaultMask })],
+                 acl := [(22, ruleArp), (23, ruleIcmp)] }
+  | .pc => { kind := .computer, hostname := o.name, startUp := some 0,
+             ip := some (ipv4 192 168 c.subnetBase (o.octet.getD 0)),
+             gateway := if o.gateway then some (ipv4 192 168 c.subnetBase 1) else none }
+
+/-- `for node_set_cfg in node_sets_cfg: NetworkNodeAdder.from_config(…)`: the adder's nodes do not pass through the `nodes:` loop,
+so the `defaults:` section does not reach them (`{}`), and they are powered on by the adder itself. -/
+def buildNodeSets : List OfficeCfg → Except Err (List NodeInv × List LinkInv)
+  | [] => .ok ([], [])
+  | c :: rest => match officeBuild c with
+    | .error _ => .error .nodeSet
+    | .ok inv => match buildNodes {} (inv.nodes.map (officeNodeCfg c)) with
+      | .error e => .error e
+      | .ok ns => match buildNodeSets rest with
+        | .error e => .error e
+        | .ok (ns', ls') => .ok (ns ++ ns', inv.links ++ ls')
+
+/-- the adder wires its nodes itself (`network.connect(a.network_interface[p], b.network_interface[q])`, object references: no
+lookup can fail); the hostnames it generates identify those objects as long as hostnames are unique -/
+def plugLinks (nodes : List NodeInv) (links : List LinkInv) : List NodeInv :=
+  links.foldl (fun ns l => plugAt (plugAt ns l.a l.pa) l.b l.pb) nodes
+
+/-- `PrimaiteGame.from_config`: game options, airspace capacities, nodes, node sets, links, agents. -/
+def build (s : Scenario) : Except Err Inventory :=
+  match buildAirspace s.airspace with
+  | none => .error .noSuchFrequency
+  | some air =>
+  match buildNodes s.defaults s.nodes with
+  | .error e => .error e
+  | .ok nodes =>
+  match buildNodeSets s.nodeSets with
+  | .error e => .error e
+  | .ok (setNodes, setLinks) =>
+  match buildLinks (plugLinks (nodes ++ setNodes) setLinks) s.links with
+  | .error e => .error e
+  | .ok (wired, links) =>
+    .ok { nodes := wired, links := setLinks ++ links, agents := buildAgents s.agents, game := gameOf s.game, airspace := air }
+
+/-! ## what the documentation says the file declares -/
+
+/-- ACL slot `i`: the rule the file puts at position `i`, else the loader's default rule there, else empty. -/
+def declaredAcl (base : Acl) (m : Assoc Nat Rule) : Acl :=
+  { base with rules := (List.range base.rules.length).map fun i =>
+      match alookup i m with
+      | some r => some { r with hits := 0 }
+      | none => (base.rules[i]?).join }
+
+/-- router port `k` (1-based): the address the file gives under key `k`, else the unconfigured loopback default. -/
+def declaredPorts (num : Nat) (m : Assoc Nat IfCfg) : List Nic :=
+  (List.range num).map fun i =>
+    match alookup (i + 1) m with
+    | some c => { name := none, ip := some c.ip, mask := some (c.mask.getD defaultMask) }
+    | none => loopNic none
+
+/-- extra host NICs: the entries of `network_interfaces` become NIC 2, 3, … in ascending key order (the configuration pages
+do not say what the keys mean; every shipped file uses 2, 3, … so that key = NIC number — an `example` in Props/C20.lean). -/
+def declaredNics (m : Assoc Nat IfCfg) : List Nic := (sortByKey m).map fun e => nicOf e.2
+
+/-- every piece of software the node is asked to carry (pre-installed system software, the configured services and
+applications, the FTP client a database service brings along): ONE live instance per name, with the options of the last
+entry that names it (a configured entry for pre-installed system software replaces the bare pre-installed instance). -/
+def declaredSoftware (d : DefaultsCfg) (p : Power) (k : Kind) (n : NodeCfg) : List SoftInv :=
+  (lastReqs (installRequests d k n)).map fun r =>
+    { name := r.name, isApp := r.isApp, live := 1,
+      -- every option the entry gives shows on the built software with the value the entry gives
+      opts := r.opts.map (fun e => (e.1, some e.2)),
+      imposedFix := r.imposedFix, imposedRestart := r.imposedRestart,
+      -- initial state: software runs exactly on a node that is ON; its health is the configured starting health
+      -- (UNUSED means "never run": on an ON node the software has been started, which makes it GOOD)
+      running := decide (p = .on),
+      health := if p = .on ∧ r.health0 = .unused then .good else r.health0 }
+
+def declaredUsers (n : NodeCfg) : List UserInv :=
+  adminUser :: n.users.map fun u => { name := u.name, password := u.password, admin := u.admin.getD false }
+
+def declaredFwNic (n : NodeCfg) (key name : String) : Nic :=
+  match alookup key n.fwPorts with
+  | some c => { name := some name, ip := some c.ip, mask := some (c.mask.getD defaultMask) }
+  | none => loopNic (some name)
+
+def declaredFwAcls (n : NodeCfg) : List (String × Acl) :=
+  fwAclNames.map fun (nm, imp, _) =>
+    (nm, declaredAcl (Acl.empty aclSlots imp) (if n.fwAclPresent then (alookup nm n.fwAcl).getD [] else []))
+
+/-- the wireless access point of a wireless router: the declared address and frequency (127.0.0.1/8 on WIFI_2_4 when the entry
+has no `wireless_access_point`); it needs no link and is enabled iff the node is ON -/
+def declaredWap (n : NodeCfg) : Nic :=
+  match n.wap with
+  | some w => { name := none, ip := some w.ip, mask := some w.mask, enabled := decide (n.power.getD .on = .on),
+                frequency := some w.frequency }
+  | none => { name := none, ip := some loopbackIp, mask := some loopbackMask, enabled := decide (n.power.getD .on = .on),
+              frequency := some defaultFrequency }
+
+def declaredRouterIf (n : NodeCfg) : Nic :=
+  match n.routerIf with
+  | some (ip, m) => { name := none, ip := some ip, mask := some m }
+  | none => loopNic none
+
+def declaredNode (d : DefaultsCfg) (n : NodeCfg) : NodeInv :=
+  let net : Bool := n.kind = .switch ∨ n.kind = .router ∨ n.kind = .firewall ∨ n.kind = .wirelessRouter
+  { kind := n.kind, hostname := n.hostname, power := n.power.getD .on,
+    -- a duration the entry gives, else the `defaults:` section's, else 3
+    startUp := n.startUp.getD (d.nodeStartUp.getD defaultDuration),
+    shutDown := n.shutDown.getD (d.nodeShutDown.getD defaultDuration),
+    scan := d.nodeScan.getD defaultScan, folderScan := d.folderScan, folderRestore := d.folderRestore,
+    dns := n.dns, gateway := n.gateway,
+    nics := match n.kind with
+      | .computer | .server | .printer =>
+        { name := none, ip := n.ip, mask := some (n.mask.getD defaultMask) } :: declaredNics n.nics
+      | .switch => List.replicate (n.numPorts.getD defaultSwitchPorts) { name := none, ip := none, mask := none }
+      | .router => declaredPorts (n.numPorts.getD defaultRouterPorts) n.ports
+      | .firewall => [declaredFwNic n "external_port" "external", declaredFwNic n "internal_port" "internal",
+                      declaredFwNic n "dmz_port" "dmz"]
+      | .wirelessRouter => [declaredWap n, declaredRouterIf n],
+    acls := match n.kind with
+      | .router | .wirelessRouter => [("acl", declaredAcl routerBaseAcl n.acl)]
+      | .firewall => ("acl", routerBaseAcl) :: declaredFwAcls n
+      | _ => [],
+    routes := if net then n.routes.map routeOf else [],
+    defaultRoute := if net then n.defaultRoute else none,
+    software := declaredSoftware d (n.power.getD .on) n.kind n,
+    users := if n.kind = .switch then [] else declaredUsers n,
+    folders := if net then [] else n.folders }
+
+def declaredLink (l : LinkCfg) : LinkInv :=
+  { a := l.a, pa := l.pa, b := l.b, pb := l.pb, bandwidth := l.bandwidth.getD defaultBandwidth }
+
+/-- does the file's `links` list name interface `port` of host `h` as an endpoint? -/
+def namesEndpoint (links : List LinkCfg) (h : String) (port : Nat) : Bool :=
+  links.any fun l => (decide (l.a = h) && decide (l.pa = port)) || (decide (l.b = h) && decide (l.pb = port))
+
+/-- initial state of the interfaces: interface `i` is wired iff a link of the file ends there, and enabled iff it is wired and
+the node is ON. -/
+def declaredWiring (links : List LinkCfg) (n : NodeInv) : NodeInv :=
+  { n with nics := n.nics.mapIdx fun i c =>
+      if namesEndpoint links n.hostname (i + 1) ∧ c.frequency.isNone then
+        { c with wired := true, enabled := decide (n.power = .on) } else c }
+
+/-- capacity of every registered frequency: the one the file gives under its name, else the registry's own -/
+def declaredAirspace (cfg : Assoc String String) : List (String × String) :=
+  frequencies.map fun r => (r.1, (alookup r.1 cfg).getD r.2)
+
+def linkCfgOf (l : LinkInv) : LinkCfg := { a := l.a, pa := l.pa, b := l.b, pb := l.pb, bandwidth := some l.bandwidth }
+
+/-- the nodes of the scenario before any link: the `nodes:` entries, then what each `node_sets:` entry stands for -/
+def declaredNodes (s : Scenario) : List NodeInv :=
+  s.nodes.map (declaredNode s.defaults)
+    ++ s.nodeSets.flatMap fun c => (officeDeclared c).nodes.map fun o => declaredNode {} (officeNodeCfg c o)
+
+/-- the links the node sets stand for, in creation order -/
+def declaredSetLinks (s : Scenario) : List LinkInv := s.nodeSets.flatMap fun c => (officeDeclared c).links
+
+/-- CLOSED FORM of the loader: what `build` is proved to compute (`C20_build_eq_declared`). The specification written from the
+documentation alone is `spec` below. -/
+def declared (s : Scenario) : Inventory :=
+  { nodes := (declaredNodes s).map (declaredWiring ((declaredSetLinks s).map linkCfgOf ++ s.links)),
+    links := declaredSetLinks s ++ s.links.map declaredLink,
+    agents := s.agents.map agentOf, game := gameOf s.game, airspace := declaredAirspace s.airspace }
+
+/-! ## the specification, written from the documentation alone
+
+`declared` above is the closed form of the loader and shares two helpers with it: the list of install requests and the sort of the
+extra NICs. `spec` shares neither: software is described as a SET of names, each with the options of the LAST entry that names it;
+extra NICs as a lookup, "NIC number k carries the entry under key k". `Props/C20Spec.lean` proves `declared ≃ spec` (software up
+to order), so a mistake in a shared helper cannot hide behind `build = declared`. -/
+
+/-- keep one copy of every name (which copy does not matter: lists of names are compared up to order) -/
+def dedupNames : List String → List String
+  | [] => []
+  | a :: l => if a ∈ l then dedupNames l else a :: dedupNames l
+
+/-- the last entry of type `name` in a `services:` / `applications:` list -/
+def lastCfg (name : String) (l : List SwCfg) : Option SwCfg := l.reverse.find? (·.type = name)
+
+/-- every piece of software the node carries: what its type pre-installs, what the file lists, and the FTP client a database
+service brings along -/
+def specNames (k : Kind) (n : NodeCfg) : List String :=
+  dedupNames ((systemSoftware k).map (·.1) ++ (n.services ++ n.applications).map (·.type)
+    ++ (if n.services.any (·.type = "database-service") then ["ftp-client"] else []))
+
+/-- what the file says about software `name`: the LAST entry that names it counts — an `applications:` entry if there is one
+(applications are installed after services), else a `services:` entry, else the bare pre-installed / brought-along software -/
+def specSoftwareOf (d : DefaultsCfg) (p : Power) (k : Kind) (n : NodeCfg) (name : String) : SoftInv :=
+  let started (h : Health) : Health := if p = .on ∧ h = .unused then .good else h
+  match lastCfg name n.applications with
+  | some c =>
+    { name := name, isApp := true, live := 1, opts := c.opts.map (fun e => (e.1, some e.2)),
+      running := decide (p = .on), health := started (c.health.getD .good) }
+  | none =>
+    match lastCfg name n.services with
+    | some c =>
+      { name := name, isApp := false, live := 1, opts := c.opts.map (fun e => (e.1, some e.2)),
+        running := decide (p = .on), health := started (c.health.getD .good),
+        -- the defaults section speaks of services: a fixing duration for those that give none, a restart duration for all
+        imposedFix := if (alookup "fixing_duration" c.opts).isSome then none else d.svcFix,
+        imposedRestart := d.svcRestart }
+    | none =>
+      { name := name, isApp := (alookup name (systemSoftware k)).getD false, live := 1, opts := [],
+        running := decide (p = .on), health := started .good }
+
+def specSoftware (d : DefaultsCfg) (p : Power) (k : Kind) (n : NodeCfg) : List SoftInv :=
+  (specNames k n).map (specSoftwareOf d p k n)
+
+def blankIf : IfCfg := { ip := 0#32, mask := none }
+
+/-- extra NICs of a host: NIC number `k` (2, 3, …) carries the entry the file gives under key `k` -/
+def specNics (m : Assoc Nat IfCfg) : List Nic :=
+  (List.range m.length).map fun j => nicOf ((alookup (j + 2) m).getD blankIf)
+
+def specNode (d : DefaultsCfg) (n : NodeCfg) : NodeInv :=
+  let base := declaredNode d n
+  { base with
+    software := specSoftware d (n.power.getD .on) n.kind n,
+    nics := match n.kind with
+      | .computer | .server | .printer => { name := none, ip := n.ip, mask := some (n.mask.getD defaultMask) } :: specNics n.nics
+      | _ => base.nics }
+
+def specNodes (s : Scenario) : List NodeInv :=
+  s.nodes.map (specNode s.defaults)
+    ++ s.nodeSets.flatMap fun c => (officeDeclared c).nodes.map fun o => specNode {} (officeNodeCfg c o)
+
+def spec (s : Scenario) : Inventory :=
+  { declared s with nodes := (specNodes s).map (declaredWiring ((declaredSetLinks s).map linkCfgOf ++ s.links)) }
+
+/-! ## episode schedules (`EpisodeListScheduler.__call__`) -/
+
+structure Schedule (Doc : Type) where
+  /-- `schedule:` mapping of schedule.yaml: episode number → list of file names (read by key) -/
+  schedule : Assoc Nat (List String)
+  /-- file name → text of that file (read by key) -/
+  files : Assoc String Doc
+  base : Doc
+
+/-- the documents whose texts are joined (in this order) and parsed for episode `n`; `none` where Python raises
+KeyError (schedule without key `n mod len`, or a file name that was not loaded). -/
+def scheduleDocs {Doc} (s : Schedule Doc) (n : Nat) : Option (List Doc) :=
+  if s.schedule.length = 0 then none else
+  let e := if n ≥ s.schedule.length then n % s.schedule.length else n
+  match alookup e s.schedule with
+  | none => none
+  | some names =>
+    match names.mapM (fun f => alookup f s.files) with
+    | none => none
+    | some docs => some (docs ++ [s.base])
+
+/-- flattening of the `agents` list by one level (`isinstance(a, Sequence)` → extend, else append). -/
+def flattenAgents {α} : List (α ⊕ List α) → List α
+  | [] => []
+  | .inl a :: rest => a :: flattenAgents rest
+  | .inr as :: rest => as ++ flattenAgents rest
 
 end Primaite.Config
